@@ -267,3 +267,12 @@ Qed.
 Theorem dec_any_conforms : forall t, wf t -> nest_ok t -> forall fuel rest, (length (payload t) < fuel)%nat ->
   run_flat (dec_any fuel (tag_id t)) (payload t ++ rest) = FOk (value_of t) rest.
 Proof. intros t W Hn fuel rest Hf. now apply dany_conforms. Qed.
+
+(* the map[string]any destination on a compound: the same reads and the same map as the interface{} destination *)
+Lemma dec_map_conforms l : wf (TCompound l) -> nest_ok (TCompound l) -> forall fuel rest,
+  (length (payload (TCompound l)) < fuel)%nat ->
+  run_flat (dec_map fuel (tag_id (TCompound l))) (payload (TCompound l) ++ rest) = FOk (value_of (TCompound l)) rest.
+Proof.
+  intros W Hn fuel rest Hf. destruct fuel as [|f]; [lia|].
+  change (dec_map (S f) (tag_id (TCompound l))) with (dec_any (S f) (tag_id (TCompound l))). now apply dec_any_conforms.
+Qed.
